@@ -251,7 +251,9 @@ class Algebra:
         if src in FLOAT_DTYPES and dst in INT_DTYPES:
             lo, hi = int_range(dst)
             if self.floatmode == "R":
-                t = z3.If(x >= 0, z3.ToInt(x), -z3.ToInt(-x))  # round toward zero
+                t = real_to_int_exact(x)
+                if t is None:
+                    t = z3.If(x >= 0, z3.ToInt(x), -z3.ToInt(-x))  # round toward zero
                 if self.intmode == "bv":
                     raise Unsupported("real->bv cast")
                 key = (dst,)
@@ -395,7 +397,14 @@ class Algebra:
         if d in INT_DTYPES:
             return a
         if self.floatmode == "R":
-            return z3.ToReal(rne_int(a))
+            # RNE : Real -> Int is a total function; its defining axiom is instantiated at each use
+            f = z3.Function("RNE", z3.RealSort(), z3.IntSort())
+            r = f(a)
+            rr = z3.ToReal(r)
+            half = z3.RealVal("1/2")
+            self.side.append(("fact", z3.And(rr - a <= half, a - rr <= half,
+                                             z3.Implies(z3.Or(rr - a == half, a - rr == half), r % 2 == 0))))
+            return rr
         return z3.fpRoundToIntegral(z3.RNE(), a)
 
     def cmp(self, op, a, b, d):
@@ -427,6 +436,23 @@ class Algebra:
         if hi is not None:
             r = z3.If(self.cmp("gt", r, hi, d), hi, r)
         return r
+
+
+def real_to_int_exact(x):
+    """If the Real term x is syntactically integer-valued (ToReal(i), integral numerals, If-trees of those),
+    return the equal Int term, else None.  Avoids ToInt(ToReal(.)) round trips in the solver."""
+    if z3.is_app_of(x, z3.Z3_OP_TO_REAL):
+        return x.arg(0)
+    if z3.is_rational_value(x):
+        if x.denominator_as_long() == 1:
+            return z3.IntVal(x.numerator_as_long())
+        return None
+    if z3.is_app_of(x, z3.Z3_OP_ITE):
+        a, b = real_to_int_exact(x.arg(1)), real_to_int_exact(x.arg(2))
+        if a is None or b is None:
+            return None
+        return z3.If(x.arg(0), a, b)
+    return None
 
 
 def rne_int(x):
